@@ -230,7 +230,11 @@ def _worker(args):
             if time.time() > t_end:
                 res['skipped_time'] += 1
                 return
+            t_case = time.time()
             out = safe_run(mod, case)
+            t_case = time.time() - t_case
+            if t_case > res.get('slowest', (0, None))[0]:
+                res['slowest'] = (round(t_case, 2), case)
             if only_bucket is None:
                 record(case, out)
             elif (not out.ok) and out.bucket() == only_bucket and not match_known(mod, case, out, known):
@@ -308,7 +312,7 @@ def main(ident, tier, replay=None):
     budget = int(os.environ.get('VERIF_CASES', mod.BUDGET[tier]))
     tcap = float(os.environ.get('VERIF_TIME', mod.TIME[tier]))
     deadline = t0 + tcap
-    nshards = NPROC
+    nshards = NPROC * int(os.environ.get('VERIF_SHARDS_PER_PROC', '4'))     # more shards than workers: stragglers even out
 
     totals = {'n': 0, 'nontrivial': set(), 'classes': {}, 'samples': [], 'failures': {}, 'known_seen': {},
               'inconclusive': 0, 'skipped_time': 0}
@@ -377,7 +381,8 @@ def main(ident, tier, replay=None):
     per = int(math.ceil(budget / float(nshards)))
     jobs = [(modname, tier, base_seed, s, nshards, per, deadline, None) for s in range(nshards)]
     with ctx.Pool(NPROC) as pool:
-        results = pool.map(_worker, jobs, chunksize=1)
+        results = list(pool.imap_unordered(_worker, jobs, chunksize=1))
+    results.sort(key=lambda r: r['shard'])
     for r in results:
         totals['n'] += r['n']
         totals['nontrivial'].update(r['nontrivial'])
@@ -390,6 +395,8 @@ def main(ident, tier, replay=None):
             totals['known_seen'][kid] = totals['known_seen'].get(kid, 0) + v
         totals['inconclusive'] += r['inconclusive']
         totals['skipped_time'] += r['skipped_time']
+        if r.get('slowest', (0, None))[0] > totals.get('slowest', (0, None))[0]:
+            totals['slowest'] = r['slowest']
         if r['harness_error']:
             harness_errors.append('shard %d: %s' % (r['shard'], r['harness_error']))
         for b, f in r['failures'].items():
@@ -428,6 +435,7 @@ def main(ident, tier, replay=None):
             'known_findings_seen': totals['known_seen'],
             'exhaustive': bool(exhaustive_info and exhaustive_info['complete']) if exhaustive_info else False,
             'shards': nshards,
+            'slowest_case_s': totals.get('slowest', (0, None))[0],
         },
         'assumptions': list(getattr(mod, 'ASSUMPTIONS', [])) + [
             'code under test imported from %s (working tree)' % REPO,
@@ -446,6 +454,8 @@ def main(ident, tier, replay=None):
 
     print('%s tier=%s seed=%d cases=%d nontrivial=%d inconclusive=%d not_run(time)=%d wall=%.1fs' % (
         ident, tier, base_seed, n_eval, n_nt, totals['inconclusive'], totals['skipped_time'], wall))
+    if totals.get('slowest', (0, None))[0] > 20:
+        print('  slowest case: %.1fs %s' % (totals['slowest'][0], json.dumps(totals['slowest'][1], default=str)[:600]))
     if totals['classes']:
         print('  classes: ' + ', '.join('%s=%d' % kv for kv in sorted(totals['classes'].items())))
     for kid, v in sorted(totals['known_seen'].items()):
